@@ -174,7 +174,15 @@ func runSolver(ctx context.Context, cfg SolverCfg, file string, timeout time.Dur
 	t0 := time.Now()
 	_ = cmd.Run()
 	secs := time.Since(t0).Seconds()
-	first := strings.TrimSpace(strings.SplitN(out.String(), "\n", 2)[0])
+	first := ""
+	for _, l := range strings.Split(out.String(), "\n") {
+		l = strings.TrimSpace(l)
+		if l == "" || strings.HasPrefix(l, "WARNING") {
+			continue // e.g. z3: 'if' cannot be used in patterns (the pattern is ignored)
+		}
+		first = l
+		break
+	}
 	status := "unknown"
 	switch first {
 	case "unsat":
